@@ -307,7 +307,7 @@ def _xpath_tokens(steps: list[dict], relative: bool) -> list[str]:
         if s.get("index") is not None:
             toks.append("[")
             if s["index"] != "":
-                toks.append(s["index"])
+                toks += list(s["index"])  # one token per digit: blanks between the digits of an index mean nothing
             toks.append("]")
         if s.get("cls") is not None:
             toks.append(s["cls"])
@@ -349,8 +349,13 @@ def st_texts(ctx: Ctx):
         lambda t: {"kind": "deep", "lang": "pattern", "expect": None,
                    "text": ("(Mixed @child=" * t[0] + "(*)" + ")" * t[0]) if t[1] == "child" else
                            ("(Mixed @items=[" * t[0] + "(*)" + "])" * t[0])})
-    deep_xp = st.sampled_from([200, 1200, 4000]).map(
-        lambda n: {"kind": "deep", "lang": "xpath", "expect": None, "text": "/Mixed" * n + "/LeafA"})
+    deep_xp = st.one_of(
+        st.sampled_from([200, 1200, 4000]).map(
+            lambda n: {"kind": "deep", "lang": "xpath", "expect": None, "text": "/Mixed" * n + "/LeafA"}),
+        # an index of thousands of digits (leading zeros or not): a usable xpath or the definition error
+        st.tuples(st.sampled_from([40, 4300, 4301, 9000]), st.sampled_from(["0", "7"])).map(
+            lambda t: {"kind": "huge-index", "lang": "xpath", "expect": None,
+                       "text": "/Mixed/@items[" + t[1] * t[0] + "1]LeafA"}))
     ill_xp = st.sampled_from([
         ("unknown class", "//Nope"), ("unknown class", "/Mixed/@items[0]Nope"), ("non-node class", "//CodeOrigin"),
         ("non-node class", "/Source"), ("non-node class", "//Mixed/MultiOrigin"), ("syntax", "//"), ("syntax", "/"),
